@@ -232,6 +232,52 @@ package bytecode
 //@   modifies allmaps(state.variables)
 //@   ensures code: result.1 == nil ==> len(result.0) == genLen(*l) && genLen(*l) >= 0 && (fresh(result.0) || len(result.0) == 0) && (forall k :: { result.0[k] } 0 <= k && k < len(result.0) ==> result.0[k] == genCode(*l, offset, k)) [C01]
 
+// Layout of an alternation (C01): Branch, the left alternative generated for the position after it, a
+// jump to the end, the right alternative generated for the position after that jump, a jump to the end;
+// the Branch instruction points at the two alternatives in the order written. litLen/litCode are to
+// generateLiteral what genLen/genCode are to generateSearchInstruction (A-GEN).
+//@ specfunc litLen(Iface) Int
+//@ specfunc litCode(Iface, Int, Int) Iface
+//@ func generateLiteral [C01]
+//@   trusted
+//@   requires l != nil && state != nil && state.variables != nil
+//@   modifies allmaps(state.variables)
+//@   ensures code: result.1 == nil ==> len(result.0) == litLen(*l) && litLen(*l) >= 0 && (fresh(result.0) || len(result.0) == 0) && (forall k :: { result.0[k] } 0 <= k && k < len(result.0) ==> result.0[k] == litCode(*l, offset, k)) [C01]
+//@ func generateBranch [C01]
+//@   noframe
+//@   requires l != nil && state != nil && state.variables != nil
+//@   modifies allmaps(state.variables)
+//@   let LL := litLen(l.Left)
+//@   let LR := genLen(l.Right)
+//@   let end := offset + LL + LR + 3
+//@   ensures size: result.1 == nil ==> len(result.0) == LL + LR + 3
+//@   ensures branch: result.1 == nil ==> result.0[0] is Branch && len((result.0[0] as Branch).Branches) == 2 && (result.0[0] as Branch).Branches[0] == offset + 1 && (result.0[0] as Branch).Branches[1] == offset + LL + 2
+//@   ensures left: result.1 == nil ==> forall k :: { result.0[1 + k] } 0 <= k && k < LL ==> result.0[1 + k] == litCode(l.Left, offset + 1, k)
+//@   ensures jumps: result.1 == nil ==> result.0[1 + LL] is Jump && (result.0[1 + LL] as Jump).NewProgramCounter == end && result.0[LL + LR + 2] is Jump && (result.0[LL + LR + 2] as Jump).NewProgramCounter == end
+//@   ensures right: result.1 == nil ==> forall k :: { result.0[LL + 2 + k] } 0 <= k && k < LR ==> result.0[LL + 2 + k] == genCode(l.Right, offset + LL + 2, k)
+
+// Layout of a capture (C01): StartVarDec and EndVarDec with the capture's name around the body
+// generated for the position after StartVarDec; the name is declared (C02: the capture the
+// ENDVAR instruction binds is the one written).
+//@ func generateVarDec [C01 C02]
+//@   noframe
+//@   requires l != nil && state != nil && state.variables != nil
+//@   modifies allmaps(state.variables)
+//@   let LB := litLen(l.Body)
+//@   ensures size: result.1 == nil ==> len(result.0) == LB + 2
+//@   ensures frame: result.1 == nil ==> result.0[0] is StartVarDec && (result.0[0] as StartVarDec).Name == l.Name && result.0[LB + 1] is EndVarDec && (result.0[LB + 1] as EndVarDec).Name == l.Name
+//@   ensures body: result.1 == nil ==> forall k :: { result.0[1 + k] } 0 <= k && k < LB ==> result.0[1 + k] == litCode(l.Body, offset + 1, k)
+//@   ensures declared: result.1 == nil ==> has(state.variables, l.Name)
+
+// Frame of a subroutine (C01): StartSubroutine carries the position it stands at as its id and the
+// position of its EndSubroutine, which closes the code; both carry the subroutine's name.
+//@ func generateSubroutine [C01]
+//@   noframe
+//@   requires l != nil && state != nil && state.variables != nil
+//@   modifies allmaps(state.variables)
+//@   ensures frame: result.1 == nil ==> len(result.0) >= 2 && result.0[0] is StartSubroutine && (result.0[0] as StartSubroutine).Id == offset && (result.0[0] as StartSubroutine).Name == l.Name && (result.0[0] as StartSubroutine).EndOffset == offset + len(result.0) - 1 && result.0[len(result.0) - 1] is EndSubroutine && (result.0[len(result.0) - 1] as EndSubroutine).Name == l.Name
+//@   loop 1 invariant place: loffset == offset + 1 + len(bodyinsts) && state.variables != nil && l.Name == old(l.Name)
+
 // Layout of a loop (C01): every mandatory iteration of an unnamed loop is the body's code
 // generated for the position where it is placed (P records the chunk starts); the repeating
 // part is StartLoop, the body generated for the position after it, StopLoop, with the two
